@@ -5,34 +5,6 @@ import QuiverModel.Lemmas.Heap.Notify
 namespace QM.Heap
 open State
 
-mutual
-theorem mem_idxs_iff (v : Val) (i : Nat) : i ∈ v.idxs ↔ 0 < v.count i := by
-  cases v with
-  | bin b =>
-    cases b with
-    | const k => simp [Val.idxs, Val.count]
-    | heap j =>
-      simp only [Val.idxs, count_heapBin, List.mem_singleton]
-      constructor
-      · intro e; simp [e]
-      · intro h; by_cases e : j = i
-        · exact e.symm
-        · simp [e] at h
-  | tuple id fs => simp only [Val.idxs, count_tuple]; exact mem_idxsList_iff fs i
-  | func id cs => simp only [Val.idxs, count_func]; exact mem_idxsList_iff cs i
-  | int _ => simp [Val.idxs, Val.count]
-  | ref _ => simp [Val.idxs, Val.count]
-  | builtin _ => simp [Val.idxs, Val.count]
-  | proc _ _ => simp [Val.idxs, Val.count]
-  | resource _ _ => simp [Val.idxs, Val.count]
-theorem mem_idxsList_iff (vs : List Val) (i : Nat) : i ∈ idxsList vs ↔ 0 < countList i vs := by
-  cases vs with
-  | nil => simp [idxsList]
-  | cons v vs =>
-    simp only [idxsList, List.mem_append, countList_cons]
-    rw [mem_idxs_iff v i, mem_idxsList_iff vs i]; omega
-end
-
 theorem mem_procsIdxs_iff (m : List (Nat × Proc)) (i : Nat) : i ∈ procsIdxs m ↔ 0 < procsCount i m := by
   induction m with
   | nil => simp [procsIdxs, procsCount]
